@@ -134,8 +134,9 @@ Proof.
 Qed.
 Print Assumptions C12_translated_source_agrees.
 
-(* The third tie: DiffPowermaps, Powermap.ValidatorUpdates and the comparator of SortValidators,
-   translated statement by statement from app/powermap.go on this run
+(* The third tie: DiffPowermaps, Powermap.ValidatorUpdates, the comparator of SortValidators
+   (app/powermap.go), ShutterApp.makePowermap and countCheckedInKeypers (app/app.go),
+   translated statement by statement on this run
    (Generated/PowermapFuns.v; every `range` over a map is a fold over an explicit enumeration),
    compute what the model computes - for every enumeration of the ranged maps. *)
 From Verif Require Import Generated.PowermapFuns Proofs.PowermapFuns.
@@ -143,9 +144,13 @@ Theorem C12_translated_powermap_agrees :
   (forall oldpm newpm oe ne, gen_diff_powermaps oldpm newpm oe ne = diff_powermaps_enum oldpm newpm oe ne) /\
   gen_diff_ranged = [0%nat; 1%nat] /\
   (forall pm e, gen_validator_updates pm e = validator_updates_enum e) /\
-  (forall a b, gen_validator_less a b = bytes_ltb a b).
+  (forall a b, gen_validator_less a b = bytes_ltb a b) /\
+  (forall ids keypers, gen_make_powermap ids keypers = make_powermap ids keypers) /\
+  (forall (ids : amap bytes) keypers, (Z.of_nat (List.length keypers) < 18446744073709551616)%Z ->
+                        gen_count_checked_in ids keypers = Z.of_N (count_checked_in ids keypers)).
 Proof.
   split; [exact gen_diff_agrees|]. split; [exact gen_diff_ranged_ok|].
-  split; [exact gen_validator_updates_agrees|exact gen_validator_less_is_ltb].
+  split; [exact gen_validator_updates_agrees|]. split; [exact gen_validator_less_is_ltb|].
+  split; [exact gen_make_powermap_agrees|exact gen_count_checked_in_agrees].
 Qed.
 Print Assumptions C12_translated_powermap_agrees.
